@@ -29,10 +29,27 @@ Definition conn_ok (sn dc pu : bool) (c : conn) : bool :=
   imp (negb (c_insnap c)) true &&
   imp pu (negb (live c)).
 
+(* enumeration over the phase and the flags of the connection; the invariant does not mention
+   [c_sent], which stays a variable *)
 Ltac crush_conn :=
   intros;
   repeat match goal with
-         | c : conn |- _ => destruct c as [? [] [] [] [] [] []]
+         | c : conn |- _ =>
+             let se := fresh "se" in
+             destruct c as [? [] [] [] [] [] [] se];
+             assert (se = se) by reflexivity
+         | b : bool |- _ =>
+             lazymatch goal with
+             | _ : b = b |- _ => fail
+             | _ => destruct b
+             end
+         end;
+  cbn in *; try reflexivity; try discriminate.
+
+Ltac crush_conn_all :=
+  intros;
+  repeat match goal with
+         | c : conn |- _ => destruct c as [? [] [] [] [] [] [] []]
          | b : bool |- _ => destruct b
          end;
   cbn in *; try reflexivity; try discriminate.
@@ -78,8 +95,19 @@ Lemma ok_spawned sn dc c :
   c_phase c = PCur -> conn_ok sn dc false c = true -> conn_ok sn dc false (set_phase PSpawned c) = true.
 Proof. crush_conn. Qed.
 
+Lemma ok_wait sn dc pu c :
+  c_phase c = PSpawned -> conn_ok sn dc pu c = true -> conn_ok sn dc pu (set_phase PWait c) = true.
+Proof. crush_conn. Qed.
+
 Lemma ok_added sn dc pu c :
-  c_phase c = PSpawned -> conn_ok sn dc pu c = true -> conn_ok sn dc pu (set_phase PAdded c) = true.
+  c_phase c = PWait -> conn_ok sn dc pu c = true -> conn_ok sn dc pu (set_phase PAdded c) = true.
+Proof. crush_conn. Qed.
+
+Lemma ok_sent sn dc pu c : conn_ok sn dc pu c = true -> conn_ok sn dc pu (set_sent c) = true.
+Proof. crush_conn. Qed.
+
+Lemma ok_read_failed sn dc pu c :
+  c_phase c = PWait -> conn_ok sn dc pu c = true -> conn_ok sn dc false (set_closed (set_phase PDone c)) = true.
 Proof. crush_conn. Qed.
 
 Lemma ok_inclients sn dc pu c :
@@ -103,15 +131,15 @@ Proof. crush_conn. Qed.
 
 (* what the invariant says about a connection once the closer has disconnected its snapshot *)
 Lemma ok_counted_not_quiet pu c :
-  conn_ok true true pu c = true -> counted c = true -> handler_quiet c = true -> False.
-Proof. crush_conn. Qed.
+  conn_ok true true pu c = true -> counted c = true -> handler_quiet c = true -> silent c = false -> False.
+Proof. crush_conn_all. Qed.
 
 Lemma ok_quiet_closed pu c :
-  conn_ok true true pu c = true -> handler_quiet c = true ->
+  conn_ok true true pu c = true -> handler_quiet c = true -> silent c = false ->
   c_phase c <> PPending -> c_phase c <> PCur ->
   conn_closed_ok c = true /\ live c = false.
 Proof.
-  intros; destruct c as [v [] [] [] [] [] []]; destruct pu; cbn in *;
+  intros; destruct c as [v [] [] [] [] [] [] []]; destruct pu; cbn in *;
     try discriminate; try congruence; split; try reflexivity;
     destruct (v =? 5)%N; reflexivity.
 Qed.
